@@ -72,53 +72,53 @@ def _internal_check_array_additions(context, sequence):
 
     temp_param_add, settings.dynamic_params_for_other_modules = \
         settings.dynamic_params_for_other_modules, False
+    try:
+        is_list = sequence.name.string_name == 'list'
+        search_names = (['append', 'extend', 'insert'] if is_list else ['add', 'update'])
 
-    is_list = sequence.name.string_name == 'list'
-    search_names = (['append', 'extend', 'insert'] if is_list else ['add', 'update'])
-
-    added_types = set()
-    for add_name in search_names:
-        try:
-            possible_names = module_context.tree_node.get_used_names()[add_name]
-        except KeyError:
-            continue
-        else:
-            for name in possible_names:
-                value_node = context.tree_node
-                if not (value_node.start_pos < name.start_pos < value_node.end_pos):
-                    continue
-                trailer = name.parent
-                power = trailer.parent
-                trailer_pos = power.children.index(trailer)
-                try:
-                    execution_trailer = power.children[trailer_pos + 1]
-                except IndexError:
-                    continue
-                else:
-                    if execution_trailer.type != 'trailer' \
-                            or execution_trailer.children[0] != '(' \
-                            or execution_trailer.children[1] == ')':
+        added_types = set()
+        for add_name in search_names:
+            try:
+                possible_names = module_context.tree_node.get_used_names()[add_name]
+            except KeyError:
+                continue
+            else:
+                for name in possible_names:
+                    value_node = context.tree_node
+                    if not (value_node.start_pos < name.start_pos < value_node.end_pos):
                         continue
+                    trailer = name.parent
+                    power = trailer.parent
+                    trailer_pos = power.children.index(trailer)
+                    try:
+                        execution_trailer = power.children[trailer_pos + 1]
+                    except IndexError:
+                        continue
+                    else:
+                        if execution_trailer.type != 'trailer' \
+                                or execution_trailer.children[0] != '(' \
+                                or execution_trailer.children[1] == ')':
+                            continue
 
-                random_context = context.create_context(name)
+                    random_context = context.create_context(name)
 
-                with recursion.execution_allowed(context.inference_state, power) as allowed:
-                    if allowed:
-                        found = infer_call_of_leaf(
-                            random_context,
-                            name,
-                            cut_own_trailer=True
-                        )
-                        if sequence in found:
-                            # The arrays match. Now add the results
-                            added_types |= find_additions(
+                    with recursion.execution_allowed(context.inference_state, power) as allowed:
+                        if allowed:
+                            found = infer_call_of_leaf(
                                 random_context,
-                                execution_trailer.children[1],
-                                add_name
+                                name,
+                                cut_own_trailer=True
                             )
-
-    # reset settings
-    settings.dynamic_params_for_other_modules = temp_param_add
+                            if sequence in found:
+                                # The arrays match. Now add the results
+                                added_types |= find_additions(
+                                    random_context,
+                                    execution_trailer.children[1],
+                                    add_name
+                                )
+    finally:
+        # reset settings
+        settings.dynamic_params_for_other_modules = temp_param_add
     debug.dbg('Dynamic array result %s', added_types, color='MAGENTA')
     return added_types
 
